@@ -61,11 +61,14 @@ MinCostDP(fs, lws, pen) ==
 \* the precondition of C03 on fragments: a penalty width never exceeds the width of the next fragment
 PenaltyOk(fs) == \A k \in 1..(Len(fs) - 1) : fs[k].pw <= fs[k + 1].w
 
-\* an upper bound on every intermediate value of the cost computation (for the 32-bit check)
-CostBound(fs, lws, pen) ==
+\* Can every intermediate value of the cost computation be represented exactly in TLC's 32-bit
+\* integers (and therefore, a fortiori, in f64)?  Guarded so that the test itself cannot overflow.
+CostExact(fs, lws, pen) ==
   LET n == Len(fs)
       tot == PreSums(fs, 1, <<0>>)[n + 1] + 1
       mw == Max2(1, Max({0} \cup {lws[k] : k \in 1..Len(lws)}))
-      per == pen.nline + pen.short + pen.hyph + tot * pen.over + mw * mw
-  IN n * per
+      small(x) == x >= 0 /\ x <= 10000
+  IN /\ small(pen.nline) /\ small(pen.over) /\ small(pen.frac) /\ small(pen.short) /\ small(pen.hyph)
+     /\ small(tot) /\ small(mw) /\ \A k \in 1..n : small(fs[k].pw)
+     /\ pen.nline + pen.short + pen.hyph + tot * pen.over + mw * mw <= 1000000000 \div Max2(n, 1)
 =============================================================================
